@@ -1183,7 +1183,7 @@ def prim_default(e, c, a):
 def thread_sleep(e, c, a):
     h = getattr(e, "sched", None)
     if h is not None:
-        h.yield_point(e, "sleep")
+        h.sleep_point()
     return UNIT
 
 
